@@ -234,4 +234,217 @@ theorem maskIndices_length (mask : List Bool) : (maskIndices mask).length = mask
   simpa using this
 
 
+
+/-! ### little-endian encode / checked read round trip -/
+
+theorem encLE_length (w v : Nat) : (encLE w v).length = w := by
+  induction w generalizing v with
+  | zero => rfl
+  | succ w ih => simp [encLE, ih]
+
+theorem readLE_append_right (pre bs : List Nat) (p w : Nat) :
+    readLE (pre ++ bs) (pre.length + p) w = readLE bs p w := by
+  induction w generalizing p with
+  | zero => rfl
+  | succ w ih =>
+    simp only [readLE]
+    rw [List.getElem?_append_right (by omega), show pre.length + p - pre.length = p by omega,
+      show pre.length + p + 1 = pre.length + (p + 1) by omega, ih]
+
+theorem readLE_encLE (w v : Nat) (post : List Nat) : readLE (encLE w v ++ post) 0 w = some (v % 2 ^ (8 * w)) := by
+  induction w generalizing v with
+  | zero => simp [readLE, Nat.mod_one]
+  | succ w ih =>
+    simp only [encLE, readLE, List.cons_append, List.getElem?_cons_zero]
+    have h := readLE_append_right [v % 256] (encLE w (v / 256) ++ post) 0 w
+    simp only [List.singleton_append, List.length_singleton, Nat.add_zero] at h
+    rw [show (0 : Nat) + 1 = 1 by rfl, h, ih]
+    simp only [Nat.mod_mod]
+    congr 1
+    rw [show 8 * (w + 1) = 8 + 8 * w by omega, Nat.pow_add, show (2 : Nat) ^ 8 = 256 by rfl, Nat.mod_mul]
+
+theorem encInts_length (w : Nat) (xs : List Nat) : (encInts w xs).length = xs.length * w := by
+  induction xs with
+  | nil => simp [encInts]
+  | cons x xs ih => simp [encInts, encLE_length, ih, Nat.add_mul]; omega
+
+theorem readLE_encInts (w : Nat) (xs : List Nat) (i : Nat) (hi : i < xs.length) :
+    readLE (encInts w xs) (i * w) w = some (xs[i] % 2 ^ (8 * w)) := by
+  induction xs generalizing i with
+  | nil => simp at hi
+  | cons x xs ih =>
+    cases i with
+    | zero => simp only [encInts, Nat.zero_mul, List.getElem_cons_zero]; exact readLE_encLE w x _
+    | succ i =>
+      simp only [encInts, List.getElem_cons_succ]
+      have h := readLE_append_right (encLE w x) (encInts w xs) (i * w) w
+      rw [encLE_length] at h
+      rw [show (i + 1) * w = w + i * w by rw [Nat.add_mul]; omega, h]
+      exact ih i (by simpa using hi)
+
+/-- reading slot `i` of an encoded offsets buffer gives back the offset, if it fits the signed width -/
+theorem readInt_encInts (w : Nat) (xs : List Nat) (i : Nat) (hi : i < xs.length) (hfit : 2 * xs[i] < 2 ^ (8 * w)) :
+    readInt (encInts w xs) w true i = some (xs[i] : Int) := by
+  unfold readInt
+  rw [readLE_encInts w xs i hi]
+  have : xs[i] % 2 ^ (8 * w) = xs[i] := Nat.mod_eq_of_lt (by omega)
+  simp [this, toSigned, hfit]
+
+
+/-! ### bitmap packing and null counting -/
+
+theorem bitNat_lt (bits : List Bool) (i : Nat) : bitNat bits i < 2 := by
+  unfold bitNat; split <;> omega
+
+theorem testBit_cons_zero (b x : Nat) (hb : b < 2) : (b + 2 * x).testBit 0 = decide (b = 1) := by
+  rw [Nat.testBit_zero]
+  have : (b + 2 * x) % 2 = b := by omega
+  rw [this]
+
+theorem testBit_cons_succ (b x j : Nat) (hb : b < 2) : (b + 2 * x).testBit (j + 1) = x.testBit j := by
+  rw [Nat.testBit_succ]
+  have : (b + 2 * x) / 2 = x := by omega
+  rw [this]
+
+theorem bitNat_eq_one (bits : List Bool) (i : Nat) : decide (bitNat bits i = 1) = decide (bits[i]? = some true) := by
+  unfold bitNat; split <;> simp_all
+
+theorem packByte_testBit (bits : List Bool) (k j : Nat) (hj : j < 8) :
+    (packByte bits k).testBit j = decide (bits[8 * k + j]? = some true) := by
+  unfold packByte
+  have h0 := bitNat_lt bits (8 * k)
+  have h1 := bitNat_lt bits (8 * k + 1)
+  have h2 := bitNat_lt bits (8 * k + 2)
+  have h3 := bitNat_lt bits (8 * k + 3)
+  have h4 := bitNat_lt bits (8 * k + 4)
+  have h5 := bitNat_lt bits (8 * k + 5)
+  have h6 := bitNat_lt bits (8 * k + 6)
+  have h7 := bitNat_lt bits (8 * k + 7)
+  have e7 : 2 * bitNat bits (8 * k + 7) = bitNat bits (8 * k + 7) + 2 * bitNat bits (8 * k + 7) / 2 := by omega
+  rcases (by omega : j = 0 ∨ j = 1 ∨ j = 2 ∨ j = 3 ∨ j = 4 ∨ j = 5 ∨ j = 6 ∨ j = 7) with h | h | h | h | h | h | h | h <;> subst h
+  · rw [testBit_cons_zero _ _ h0, bitNat_eq_one]; rfl
+  · rw [testBit_cons_succ _ _ _ h0, testBit_cons_zero _ _ h1, bitNat_eq_one]
+  · rw [testBit_cons_succ _ _ _ h0, testBit_cons_succ _ _ _ h1, testBit_cons_zero _ _ h2, bitNat_eq_one]
+  · rw [testBit_cons_succ _ _ _ h0, testBit_cons_succ _ _ _ h1, testBit_cons_succ _ _ _ h2, testBit_cons_zero _ _ h3, bitNat_eq_one]
+  · rw [testBit_cons_succ _ _ _ h0, testBit_cons_succ _ _ _ h1, testBit_cons_succ _ _ _ h2, testBit_cons_succ _ _ _ h3,
+      testBit_cons_zero _ _ h4, bitNat_eq_one]
+  · rw [testBit_cons_succ _ _ _ h0, testBit_cons_succ _ _ _ h1, testBit_cons_succ _ _ _ h2, testBit_cons_succ _ _ _ h3,
+      testBit_cons_succ _ _ _ h4, testBit_cons_zero _ _ h5, bitNat_eq_one]
+  · rw [testBit_cons_succ _ _ _ h0, testBit_cons_succ _ _ _ h1, testBit_cons_succ _ _ _ h2, testBit_cons_succ _ _ _ h3,
+      testBit_cons_succ _ _ _ h4, testBit_cons_succ _ _ _ h5, testBit_cons_zero _ _ h6, bitNat_eq_one]
+  · rw [testBit_cons_succ _ _ _ h0, testBit_cons_succ _ _ _ h1, testBit_cons_succ _ _ _ h2, testBit_cons_succ _ _ _ h3,
+      testBit_cons_succ _ _ _ h4, testBit_cons_succ _ _ _ h5, testBit_cons_succ _ _ _ h6]
+    have := testBit_cons_zero (bitNat bits (8 * k + 7)) 0 h7
+    simp only [Nat.mul_zero, Nat.add_zero] at this
+    rw [this, bitNat_eq_one]
+
+theorem packBits_length (bits : List Bool) : (packBits bits).length = (bits.length + 7) / 8 := by
+  simp [packBits]
+
+/-- **bit `i` of the packed bitmap is `bits[i]`** (LSB-first, as `BooleanBufferBuilder` writes it) -/
+theorem bitAt_packBits (bits : List Bool) (i : Nat) (hi : i < bits.length) :
+    bitAt (packBits bits) i = some bits[i] := by
+  unfold bitAt packBits
+  have hk : i / 8 < (bits.length + 7) / 8 := by omega
+  rw [List.getElem?_map, List.getElem?_range hk]
+  simp only [Option.map_some]
+  rw [packByte_testBit bits (i / 8) (i % 8) (Nat.mod_lt _ (by omega)), show 8 * (i / 8) + i % 8 = i by omega,
+    List.getElem?_eq_getElem hi]
+  cases bits[i] <;> simp
+
+theorem count_false_eq (bs : List Bool) : bs.count false = bs.length - bs.count true := by
+  induction bs with
+  | nil => rfl
+  | cons b bs ih =>
+    have := List.count_le_length (a := true) (l := bs)
+    cases b <;> simp [List.count_cons, ih] <;> omega
+
+theorem range_filter_count_false (bs : List Bool) : ∀ n, n ≤ bs.length →
+    ((List.range n).filter (fun i => bs[i]? != some true)).length = (bs.take n).count false
+  | 0, _ => by simp
+  | n + 1, h => by
+    have ih := range_filter_count_false bs n (by omega)
+    rw [List.range_succ, List.filter_append, List.length_append, ih, List.take_add_one, List.count_append]
+    have hn : n < bs.length := by omega
+    have hg : bs[n]? = some bs[n] := List.getElem?_eq_getElem hn
+    simp only [hg, Option.toList_some]
+    cases hb : bs[n] <;> simp [List.filter, hg, hb] <;> rfl
+
+/-- **null count of `filter_nulls` / `take_nulls`** (`count − popcount`): the number of unset bits
+among the `len` bits of the packed bitmap is `len − (number of valid slots)` -/
+theorem countNulls_packBits (bits : List Bool) :
+    countNulls (packBits bits) 0 bits.length = bits.length - bits.count true := by
+  unfold countNulls
+  rw [← count_false_eq]
+  have h := range_filter_count_false bits bits.length (Nat.le_refl _)
+  rw [List.take_length] at h
+  rw [← h]
+  congr 1
+  apply List.filter_congr
+  intro i hi
+  have hi' : i < bits.length := by simpa using hi
+  rw [Nat.zero_add, bitAt_packBits bits i hi', List.getElem?_eq_getElem hi']
+
+/-- an array whose validity is `mkNulls bits` over `bits.length` slots satisfies the bitmap rule
+(exact null count, bitmap covers the slots) -/
+theorem nullsOk_mkNulls (d : ArrayData) (bits : List Bool) (hl : d.len = bits.length) (hn : d.nulls = mkNulls bits) :
+    NullsOk d := by
+  unfold NullsOk
+  rw [hn]
+  unfold mkNulls
+  by_cases h0 : bits.length - bits.count true = 0
+  · simp [h0]
+  · simp only [h0, if_false]
+    refine ⟨hl.symm, ?_, ?_⟩
+    · simp only [packBits_length]; omega
+    · exact (countNulls_packBits bits).symm
+
+
+/-! ### leaf arrays, slot lengths, flattening -/
+
+theorem wellFormed_leaf : ∀ (d : ArrayData), d.children = [] → (WellFormed d ↔ LocalWF d)
+  | ⟨t, l, o, n, bs, cs⟩, h => by
+    simp only at h
+    subst h
+    simp [WellFormed, WellFormedAll]
+
+theorem sliceChecked_length {α} {xs r : List α} {a b : Nat} (h : sliceChecked xs a b = some r) : r.length = b - a := by
+  unfold sliceChecked at h
+  split at h
+  · cases h; simp; omega
+  · cases h
+
+theorem fixedSlot_length (b : List Nat) (w off : Nat) (i : Option Nat) : (fixedSlot b w off i).length = w := by
+  unfold fixedSlot
+  cases i with
+  | none => simp
+  | some i =>
+    simp only
+    cases h : readBytes b w (off + i) with
+    | none => simp
+    | some r =>
+      unfold readBytes at h
+      have := sliceChecked_length h
+      simp only [Option.getD_some]; omega
+
+theorem flatten_length_const {α β} (f : α → List β) (w : Nat) (hf : ∀ x, (f x).length = w) (l : List α) :
+    (l.map f).flatten.length = l.length * w := by
+  induction l with
+  | nil => simp
+  | cons x l ih => simp [hf, ih, Nat.add_mul]; omega
+
+/-- slot `i` of a flattened list of slots sits at the running sum of the earlier lengths -/
+theorem flatten_slot {α} (vs : List (List α)) (i : Nat) (hi : i < vs.length) :
+    (vs.flatten.drop ((vs.take i).map List.length).sum).take (vs[i].length) = vs[i] := by
+  induction vs generalizing i with
+  | nil => simp at hi
+  | cons v vs ih =>
+    cases i with
+    | zero => simp
+    | succ i =>
+      simp only [List.take_succ_cons, List.map_cons, List.sum_cons, List.flatten_cons, List.getElem_cons_succ]
+      rw [List.drop_append, List.drop_eq_nil_of_le (Nat.le_add_right _ _), List.nil_append, Nat.add_sub_cancel_left]
+      exact ih i (by simpa using hi)
+
+
 end ArrowModel.C01
